@@ -53,6 +53,12 @@ def readRecs (recs : List Bytes) : Option Image :=
 /-- one line of the file -/
 def recordLine (rec : Bytes) : List Char := ':' :: toHexCharsU rec ++ ['\n']
 
+/-- the file: the lines of its records -/
+def textOf (recs : List Bytes) : List Char := (recs.map recordLine).flatten
+
+/-- the text of a file holding `data` at `addr` -/
+def writeText (addr : Nat) (data : Bytes) : String := String.ofList (textOf (writeRecs addr data))
+
 /-! ### checksums -/
 
 theorem sumBytes_append (a b : Bytes) : sumBytes (a ++ b) = sumBytes a + sumBytes b := by
@@ -187,5 +193,123 @@ theorem fold_writeGo (need : Bool) : ∀ (fuel : Nat) (hi : Option Nat) (addr : 
           rw [hs']
           have : st.upper * 65536 + st.segBase + addr % 65536 = addr := by rw [hu, hsb]; omega
           simp [this]
+
+/-! ### the pieces join up again -/
+
+theorem chunks_head (fuel addr : Nat) (data : Bytes) (y : Nat × Bytes) (ys : List (Nat × Bytes))
+    (h : chunks fuel addr data = y :: ys) : y.1 = addr := by
+  cases fuel with
+  | zero => simp [chunks] at h
+  | succ f =>
+    unfold chunks at h
+    split at h
+    · cases h
+    · simp only [List.cons.injEq] at h
+      rw [← h.1]
+
+theorem chunks_nonempty (fuel : Nat) : ∀ (addr : Nat) (data : Bytes) (c : Nat × Bytes), c ∈ chunks fuel addr data → c.2 ≠ [] := by
+  induction fuel with
+  | zero => intro addr data c h; simp [chunks] at h
+  | succ f ih =>
+    intro addr data c h
+    unfold chunks at h
+    split at h
+    · cases h
+    · rename_i hdata
+      have hpos : 0 < data.length := List.length_pos_iff.mpr hdata
+      obtain ⟨hn1, _, hnl, _⟩ := chunkLen_facts addr data.length hpos
+      rcases List.mem_cons.mp h with h | h
+      · subst h
+        intro hnil
+        have hnil' : data.take (chunkLen addr data.length) = [] := hnil
+        have : (data.take (chunkLen addr data.length)).length = 0 := by rw [hnil']; rfl
+        rw [List.length_take] at this
+        omega
+      · exact ih _ _ c h
+
+theorem sortSegs_chunks (fuel : Nat) : ∀ (addr : Nat) (data : Bytes), sortSegs (chunks fuel addr data) = chunks fuel addr data := by
+  induction fuel with
+  | zero => intro addr data; simp [chunks, sortSegs]
+  | succ f ih =>
+    intro addr data
+    unfold chunks
+    split
+    · simp [sortSegs]
+    · simp only [sortSegs, List.foldr_cons]
+      have := ih (addr + chunkLen addr data.length) (data.drop (chunkLen addr data.length))
+      simp only [sortSegs] at this
+      rw [this]
+      cases hc : chunks f (addr + chunkLen addr data.length) (data.drop (chunkLen addr data.length)) with
+      | nil => simp [insertSeg]
+      | cons y ys =>
+        have hy := chunks_head _ _ _ y ys hc
+        simp only [insertSeg]
+        rw [if_pos (by rw [hy]; omega)]
+
+theorem mergeGo_chunks (fuel : Nat) : ∀ (s0 e : Nat) (accs : List Bytes) (d : Bytes), d.length ≤ fuel →
+    mergeGo (s0, e, accs) [] (chunks fuel e d) = some [(s0, accs.reverse.flatten ++ d)] := by
+  induction fuel with
+  | zero =>
+    intro s0 e accs d hl
+    have : d = [] := List.eq_nil_of_length_eq_zero (by omega)
+    subst this
+    simp [chunks, mergeGo]
+  | succ f ih =>
+    intro s0 e accs d hl
+    unfold chunks
+    split
+    · rename_i hd
+      subst hd
+      simp [mergeGo]
+    · rename_i hdata
+      have hpos : 0 < d.length := List.length_pos_iff.mpr hdata
+      obtain ⟨hn1, _, hnl, _⟩ := chunkLen_facts e d.length hpos
+      have htake : (d.take (chunkLen e d.length)).length = chunkLen e d.length := by rw [List.length_take]; omega
+      simp only [mergeGo, Nat.lt_irrefl, if_false, if_true]
+      rw [htake, ih s0 (e + chunkLen e d.length) (d.take (chunkLen e d.length) :: accs) (d.drop (chunkLen e d.length))
+        (by rw [List.length_drop]; omega)]
+      simp [List.append_assoc]
+
+theorem canon_chunks (fuel addr : Nat) (data : Bytes) (hl : data.length ≤ fuel) (hd : data ≠ []) :
+    canon (chunks fuel addr data) = some [(addr, data)] := by
+  unfold canon
+  have hf : (chunks fuel addr data).filter (fun s => s.2 ≠ []) = chunks fuel addr data := by
+    rw [List.filter_eq_self]
+    intro c hc
+    simpa using chunks_nonempty fuel addr data c hc
+  rw [hf, sortSegs_chunks]
+  cases fuel with
+  | zero => exact absurd (List.eq_nil_of_length_eq_zero (by omega)) hd
+  | succ f =>
+    unfold chunks
+    simp only [hd, if_false]
+    have hpos : 0 < data.length := List.length_pos_iff.mpr hd
+    obtain ⟨hn1, _, hnl, _⟩ := chunkLen_facts addr data.length hpos
+    have htake : (data.take (chunkLen addr data.length)).length = chunkLen addr data.length := by rw [List.length_take]; omega
+    simp only [mergeSorted]
+    rw [htake, mergeGo_chunks f addr (addr + chunkLen addr data.length) [data.take (chunkLen addr data.length)]
+      (data.drop (chunkLen addr data.length)) (by rw [List.length_drop]; omega)]
+    simp
+
+/-- **the reader gives back what the writer wrote**: for every address and every block of data that ends below 2^32, reading the
+records of the file yields exactly that block at that address (and nothing for an empty block). -/
+theorem readRecs_writeRecs (addr : Nat) (data : Bytes) (hb : addr + data.length ≤ 2 ^ 32) :
+    readRecs (writeRecs addr data) = some (if data = [] then [] else [(addr, data)]) := by
+  unfold readRecs writeRecs
+  have hfold : ∀ recs, List.foldl (fun (acc : Option RState) r => acc.bind (fun st => stepRecord st r)) (some {}) recs
+      = foldRecs recs (some {}) := fun _ => rfl
+  rw [hfold, foldRecs_append]
+  obtain ⟨st', hf, hd', hs'⟩ := fold_writeGo (decide (addr + data.length - 1 > 65535)) data.length none addr data {} rfl (Nat.le_refl _) hb
+    (by intro _ u hu; cases hu)
+    (by intro hneed; refine ⟨rfl, rfl, ?_⟩; simp only [decide_eq_false_iff_not] at hneed; omega)
+  rw [hf, foldRecs_cons, step_eof st' hd']
+  simp only [foldRecs, List.foldl_nil]
+  rw [hs']
+  simp only [List.append_nil, List.reverse_reverse]
+  by_cases hdata : data = []
+  · subst hdata
+    simp [chunks, canon, sortSegs, mergeSorted]
+  · simp only [hdata, if_false]
+    exact canon_chunks data.length addr data (Nat.le_refl _) hdata
 
 end SuitVerif.IHex
